@@ -23,7 +23,7 @@ TECHNIQUE = "exhaustive enumeration of all lengths around the thresholds through
 LEVEL_TEXT = ("Every length 1..80 is checked against the reference categories at each of the threshold re-implementations, and every "
               "ordered distribution of up to N boundary-length functions over two files is run through the real check command (exit status, "
               "listing, order, symbols, summary count, --quiet) and scan_path (profile, counters). Exhaustive within the bounds.")
-LEVEL_NOTE = "Bounds: lengths 1..80 + {100, 999, 1000, 7000}; boundary set {2,15,16,30,31,60,61}; <= N functions, 2 files, 2 languages. Trusted: R-cat (4 lines)."
+LEVEL_NOTE = "Bounds: lengths 1..80 + {100, 999, 1000, 7000}; boundary set {2,15,16,30,31,60,61}; <= N functions, 2 files, 2 languages. Trusted: R-cat (4 lines). Invocations run under an 80-column terminal, through check_command and through the command-line entry point, on trees that alternately lie below a hidden directory and that also hold a non-UTF-8 file."
 
 LENGTHS = list(range(1, 81)) + [100, 999, 1000, 7000]
 BOUNDARY = [2, 15, 16, 30, 31, 60, 61]
